@@ -200,20 +200,30 @@ def targetProbsPure (n : Nat) (dict : Char → M2 α) (b : Basis n) : TargetSrc 
 def nnProbsPure (n : Nat) (dict : Char → M2 α) (psi : (Fin n → Bool) → C α) (Z : α) (b : Basis n) : Nat → α :=
   fun k => absSq (Unitaries.rotatePsi n (usOf dict b) (fun k' => psi (row n k')) k) / Z
 
+/-- the default dictionary `create_dict()` as a lookup by basis letter (the property's alphabet is `X`, `Y`, `Z`) -/
+def defaultDict (c : Char) : M2 α :=
+  if c == 'X' then Unitaries.dX else if c == 'Y' then Unitaries.dY else Unitaries.dZ
+
+/-- `_unitaries_of(nn_state)` (unitaries.py, after `fix:` 4aa6393 for F10) with no explicit `unitaries` argument:
+the state's own `unitary_dict`, or `create_dict()` for a state that carries none (`dict = none`:
+`PositiveWaveFunction`). Before the fix the `none` case raised `AttributeError`. -/
+def effDict (dict : Option (Char → M2 α)) : Char → M2 α :=
+  match dict with
+  | some d => d
+  | none => defaultDict
+
+@[simp] theorem effDict_some (d : Char → M2 α) : effDict (some d) = d := rfl
+
 /-- `KL` for a `WaveFunctionBase` state.  `dict = none` models a state WITHOUT a `unitary_dict` attribute
-(`PositiveWaveFunction`): the first `rotate_psi(nn_state, basis, …)` evaluates `nn_state.unitary_dict`
-and raises `AttributeError` (an empty list of bases never gets there and fails on `0.0 / 0.0`). -/
+(`PositiveWaveFunction`): `rotate_psi(nn_state, basis, …)` then rotates with the default dictionary (`effDict`). -/
 def klPure (eps : α) (n : Nat) (dict : Option (Char → M2 α)) (psi : (Fin n → Bool) → C α)
     (prob : (Fin n → Bool) → α) (Z : α)
     (target : Target (Nat → C α) n) (bases : Option (List (Basis n))) : Except PyErr (Res α) := do
   match (← resolve target bases) with
   | .noBases t => klNone eps (2 ^ n) (fun k => absSq (t k)) (fun k => prob (row n k))
   | .list items =>
-    match dict with
-    | some d =>
-      klMean (fun (it : Basis n × TargetSrc (Nat → C α)) =>
-        singleBasisKL eps (2 ^ n) (targetProbsPure n d it.1 it.2) (nnProbsPure n d psi Z it.1)) items
-    | none => if items.length == 0 then .error .ZeroDivisionError else .error .AttributeError
+    klMean (fun (it : Basis n × TargetSrc (Nat → C α)) =>
+      singleBasisKL eps (2 ^ n) (targetProbsPure n (effDict dict) it.1 it.2) (nnProbsPure n (effDict dict) psi Z it.1)) items
 
 /-- an explicit density matrix over `space`, as a function of two basis states
 (`rho[:, idx.unsqueeze(1), idx.unsqueeze(0)]` with `idx = _convert_basis_element_to_index(v)`) -/
@@ -287,8 +297,8 @@ def nllBases (eps : α) {n : Nat} (p : Basis n → (Fin n → Bool) → α)
     return ⟨k, tot / Transc.ofNat samples.length⟩
 
 /-- `NLL` for a wavefunction state.  `dict = none` (no `unitary_dict` attribute, `PositiveWaveFunction`):
-a group with a rotated site calls `rotate_psi_inner_prod` → `_rotate_basis_state` → `nn_state.unitary_dict`
-→ `AttributeError`; with all-`Z` groups only, the dictionary is never touched. -/
+a group with a rotated site calls `rotate_psi_inner_prod` → `_rotate_basis_state` → `_unitaries_of`, which falls
+back to the default dictionary (`effDict`); with all-`Z` groups only, the dictionary is never touched. -/
 def nllPure (eps : α) (n : Nat) (dict : Option (Char → M2 α)) (psi : (Fin n → Bool) → C α)
     (prob : (Fin n → Bool) → α) (Z : α)
     (samples : List (Fin n → Bool)) (sampleBases : Option (List (Basis n))) : Except PyErr (Res α) :=
@@ -296,10 +306,7 @@ def nllPure (eps : α) (n : Nat) (dict : Option (Char → M2 α)) (psi : (Fin n 
   | none => nllNone eps prob samples
   | some bs =>
     if bs.length != samples.length then .error .IndexError  -- boolean mask `indices == i` of the wrong length
-    else match dict with
-      | some d => nllBases eps (sampleProbPure n d psi prob Z) (bs.zip samples)
-      | none => if bs.any anyRot then .error .AttributeError
-                else nllBases eps (fun _ σ => prob σ) (bs.zip samples)
+    else nllBases eps (sampleProbPure n (effDict dict) psi prob Z) (bs.zip samples)
 
 /-- `NLL` for a density-matrix state -/
 def nllMixed (eps : α) (n : Nat) (dict : Char → M2 α) (rho : (Fin n → Bool) → (Fin n → Bool) → C α)
